@@ -368,6 +368,10 @@ func scalarReflectFromGo(schema *schema_j5pb.Field, value interface{}) (protoref
 		case string:
 			return decimalFromString(val)
 
+		case json.Number:
+			// an unquoted JSON number
+			return decimalFromString(val.String())
+
 		case *string:
 			if val == nil {
 				return protoreflect.Value{}, nil
